@@ -61,6 +61,10 @@ def main(tier, only=None):
     if not only:
         from . import conform_scan
         conform_scan.run(rep, thorough)
+        # likewise for how executor::build wires the optimizer-only join operators (hash / merge joins with residual
+        # conditions exist only in optimized plans): each against the nested-loop join the unoptimized plan runs
+        from . import conform
+        conform.run(rep, 'C01', thorough, families=('join',))
     return rep.finish()
 
 
